@@ -17,7 +17,8 @@ Definition attach (k : attach_kind) (h : heap) (o : obj) : mref :=
 (** An open or closed shard: identity (creation order stands for the uuid), the examples the
     shard writer accepted (an example is identified by the index of the write operation), the
     count kept in [shard_info.number_of_examples], and the metadata attribute. *)
-Record shard := { sh_id : nat; sh_ex : list nat; sh_n : nat; sh_meta : mref }.
+Record shard := { sh_id : nat; sh_ex : list nat; sh_n : nat; sh_meta : mref;
+                  sh_vals : list meta (* ghost: the metadata value of each write at the time of the write *) }.
 Record progress := { p_shard : shard; p_written : nat }.
 
 Record fstate := {
@@ -36,7 +37,7 @@ Inductive wop :=
 | WWrite (s : split) (cm : option obj) (ok : bool)
 | WMutate (o : obj) (v : meta).
 
-Definition fresh_shard (n : nat) : shard := {| sh_id := n; sh_ex := []; sh_n := 0; sh_meta := MDefault |}.
+Definition fresh_shard (n : nat) : shard := {| sh_id := n; sh_ex := []; sh_n := 0; sh_meta := MDefault; sh_vals := [] |}.
 
 (** Local context of one [write_example] call on split [s]. *)
 Record wctx := { w_prog : progress; w_closed : list (split * shard); w_next : nat }.
@@ -60,7 +61,7 @@ Definition exec_tag (eps : nat) (s : split) (h : heap) (cm : option obj) (change
       | Some o =>
           if meta_truthy (hget h o) then
             ({| w_prog := {| p_shard := {| sh_id := sh_id sh; sh_ex := sh_ex sh; sh_n := sh_n sh;
-                                           sh_meta := attach attach_mode h o |};
+                                           sh_meta := attach attach_mode h o; sh_vals := sh_vals sh |};
                              p_written := p_written p |};
                 w_closed := w_closed c; w_next := w_next c |}, false)
           else (c, false)
@@ -69,7 +70,7 @@ Definition exec_tag (eps : nat) (s : split) (h : heap) (cm : option obj) (change
   | Write =>
       if ok then
         ({| w_prog := {| p_shard := {| sh_id := sh_id sh; sh_ex := sh_ex sh ++ [e]; sh_n := S (sh_n sh);
-                                       sh_meta := sh_meta sh |};
+                                       sh_meta := sh_meta sh; sh_vals := sh_vals sh ++ [cm_value h cm] |};
                          p_written := p_written p |};
             w_closed := w_closed c; w_next := w_next c |}, false)
       else (c, true)
@@ -156,6 +157,16 @@ Fixpoint raised_ops (eps : nat) (st : fstate) (ops : list wop) : list bool :=
   | (WMutate _ _ as o) :: t => false :: raised_ops eps (step eps st o) t
   end.
 
+(** Executable statement of C11: every example written under a non-empty metadata value lies in
+    a shard whose recorded metadata (resolved when the session ends) is that value. *)
+Definition label_ok (h : heap) (sh : shard) : bool :=
+  forallb (fun v => (v =? 0) || (v =? mval h (sh_meta sh))) (sh_vals sh) && (length (sh_vals sh) =? length (sh_ex sh)).
+Definition labels_ok (eps : nat) (ops : list wop) : bool :=
+  forallb (fun x => label_ok (f_heap (run_ops eps ops)) (snd x)) (session_closed eps ops).
+(** every accepted write is in exactly one recorded shard *)
+Definition recorded_examples (eps : nat) (ops : list wop) : list nat :=
+  flat_map (fun x => sh_ex (snd x)) (session_closed eps ops).
+
 (** Executable statement of C10 (the oracle every C10 theorem is stated through). *)
 Definition size_ok (eps : nat) (sh : shard) : bool :=
   (1 <=? length (sh_ex sh)) && (length (sh_ex sh) <=? eps) && (sh_n sh =? length (sh_ex sh)).
@@ -166,3 +177,14 @@ Definition all_but_last_full (eps : nat) (ops : list wop) (s : split) : bool :=
   forallb (full eps) (removelast (closed_of s (session_closed eps ops))).
 Definition changed_in (eps : nat) (ops : list wop) (s : split) : bool :=
   existsb (split_eqb s) (f_changed (run_ops eps ops)).
+
+(** The indices of the accepted writes to split [s], in caller order ([k] = index of the first op). *)
+Fixpoint accepted (s : split) (ops : list wop) (k : nat) : list nat :=
+  match ops with
+  | [] => []
+  | WWrite s' _ ok :: t => (if split_eqb s' s && ok then [k] else []) ++ accepted s t (S k)
+  | WMutate _ _ :: t => accepted s t (S k)
+  end.
+(** What the session recorded for split [s], shard after shard. *)
+Definition recorded (eps : nat) (ops : list wop) (s : split) : list nat :=
+  flat_map sh_ex (closed_of s (session_closed eps ops)).
